@@ -526,7 +526,7 @@ theorem step_enter_eq (w : World) (t : TaskId) (c : CtxId) (x : Ctx)
 
 /-- The context `c` after its block was left: teardown callbacks run, state `closed`. -/
 def exitedCtx (c : CtxId) (be : BlockEnd) (x : Ctx) : Ctx :=
-  { (runTeardown c be x.tds { x with state := .closing, tds := [] }).1 with state := .closed }
+  { (runTeardown c be (effStack be x.tds) { x with state := .closing, tds := [] }).1 with state := .closed }
 
 theorem step_exit_eq (w : World) (t : TaskId) (c : CtxId) (be : BlockEnd) (x : Ctx)
     (hx : w.ctx? c = some x) (hs : x.state = .opened) :
@@ -668,7 +668,7 @@ theorem step_exit_ctx (w : World) (t : TaskId) (c : CtxId) (be : BlockEnd) (x : 
 
 theorem exitedCtx_token (c : CtxId) (be : BlockEnd) (x : Ctx) :
     (exitedCtx c be x).token = x.token ∧ (exitedCtx c be x).parent = x.parent :=
-  ⟨(runTeardown_frame c be x.tds _).2.2.1, (runTeardown_frame c be x.tds _).1⟩
+  ⟨(runTeardown_frame c be (effStack be x.tds) _).2.2.1, (runTeardown_frame c be (effStack be x.tds) _).1⟩
 
 /-- Apart from entering an inactive context and leaving an open one, no operation touches the
 parent, state or token of an existing context. -/
@@ -1170,7 +1170,7 @@ theorem WInv.step {w : World} (h : WInv w) (op : Op) : WInv (step w op).1 := by
     refine WInv.childrenUpd (w1 := (w.setCtx c (exitedCtx c be x)).setCur t (x.token.getD none)) ?_ hu
     have hk : KInv (exitedCtx c be x) :=
       (KInv.runTeardown (x := { x with state := .closing, tds := [] })
-        ((h c x hx).congr rfl rfl rfl rfl) c be x.tds).congr rfl rfl rfl rfl
+        ((h c x hx).congr rfl rfl rfl rfl) c be (effStack be x.tds)).congr rfl rfl rfl rfl
     exact h.setCtx c _ hk
   · exact h
 
